@@ -62,6 +62,11 @@ CLAIMED["C19"] = dict(
     text="Decides the structural part of resharding: the destination is exactly shard_picker(ctx, RecordId::from(counter), &record) with the counter advancing once per record; a record is either kept (no send reachable) or sent to send_channels[dest] with the send awaited and `?`-propagated and the per-destination record id advanced, never both; all channels are closed when the input ends; stream and transport errors are propagated; records are stored by source shard and flattened in index order; the send loop is sequential. Multiset equality and timing behaviour are not decided.",
     ref="§3 C19")
 
+CLAIMED["C10"] = dict(
+    technique="static analysis: field-to-sink flow census (every info field reaches the HPKE info buffer), def-use binding of AAD/key to the returned report in decrypt, bounds/totality analysis of the report parsers (linear symbolic length facts from dominating guards, constructor invariants, const-definition ordering)",
+    text="Decides (a) that every field of the conversion/impression info plus the domain constants is bound into the HPKE info and that both ciphertexts are opened under to_enc_bytes() of the very info returned, with the key chosen by the record's key id and failures propagated; (b) totality of the untrusted parsing path: every index, range, bounds-check, unwrap and explicit panic reachable from report bytes is implied by a dominating length guard on the same buffer, by the data.len() >= INFO_OFFSET constructor invariant (all accessor offsets ordered below it through the const definitions) or by a recorded type-level discharge. AEAD authenticity itself and exact round-trip equality are not decided.",
+    ref="§3 C10")
+
 NOT_APPLICABLE = {
     "C01": "end-to-end numerical equality of the MPC histogram with a plaintext reference over all inputs/shardings: no clause of it is visible in code shape; static analysis in reach cannot bound it (DESIGN.md §4)",
     "C07": "functional correctness of arithmetic/Boolean circuits over all operand values is numerical; would need symbolic execution of the circuits, a different technique family (DESIGN.md §4)",
